@@ -139,6 +139,21 @@ func checkC02Case(c *Case, rep *core.Report) {
 			}
 		}
 	}
+	// two iterators of ONE Reader consumed alternately, with random access in between: each must still
+	// see its own complete result (they share the Reader's ReadSeeker)
+	if indexed {
+		ia, ib := drive.InterleavedRead(bytes.NewReader(data), []mcap.ReadOpt{mcap.UsingIndex(true)}, []mcap.ReadOpt{mcap.InOrder(mcap.LogTimeOrder)}, true)
+		rep.Count("interleaved_reads", 1)
+		if ia.Failed() != nil || ib.Failed() != nil {
+			rep.Violate("interleaved-read-error", fmt.Sprintf("%s: two iterators of one Reader consumed alternately: %v / %v", c.Describe(), ia.Failed(), ib.Failed()), c.Witness())
+			return
+		}
+		if !eqStrings(scanKeys, tripleKeys(ia.Triples)) || !eqStrings(scanSorted, sortedKeys(ib.Triples)) {
+			rep.Violate("interleaved-read-differs", fmt.Sprintf("%s: two iterators of one Reader consumed alternately return %d and %d messages, the scan %d: %s", c.Describe(), len(ia.Triples), len(ib.Triples), len(scan.Triples),
+				firstDiff(scanKeys, tripleKeys(ia.Triples))), c.Witness())
+			return
+		}
+	}
 	checkRandomAccess(c, rep, e, data)
 }
 
@@ -239,7 +254,7 @@ func c02Case(ctx *core.Ctx, i int) *Case {
 func RunC02(ctx *core.Ctx, rep *core.Report) {
 	rep.Rule = "seeded (workload, configuration) pairs written by the real Writer (built-in compressions, magic kept); every second case cycles through all 256 combinations of the eight Skip* flags. " +
 		"For each file the sequential scan is compared with Messages() in five spellings (default, UsingIndex(true), three explicit orders): element-wise in file order, as multisets in time order; " +
-		"for configurations outside the indexed-read precondition the fall-back-or-error clause is applied. Every attachment/metadata index entry is followed with GetAttachmentReader/GetMetadata; metadata callbacks are compared in both modes. " +
+		"for configurations outside the indexed-read precondition the fall-back-or-error clause is applied. Two iterators obtained from one Reader are consumed alternately (with random access in between) and each compared with the scan. Every attachment/metadata index entry is followed with GetAttachmentReader/GetMetadata; metadata callbacks are compared in both modes. " +
 		"distinct_nontrivial counts distinct (shape, configuration) pairs whose scan returns at least one message."
 	rep.Assumptions = []string{"the sequential scan itself is judged by C01", "time-order correctness is judged by C03; here only the multiset"}
 	n := ctx.Pick(1600, 40000)
